@@ -126,7 +126,7 @@ def pair_laws(rec, sids, Sid):
             rec.violation("dict_lookup", {"s": x.uri}, "equal rebuilt sid not found in dict")
 
 
-OPS = ["copy_module", "fields_mutate", "get_with_kw", "get_with_query", "get_as", "parent", "div", "copy", "as_query", "match", "path",
+OPS = ["copy_module", "fields_source_mutate", "fields_mutate", "get_with_kw", "get_with_query", "get_as", "parent", "div", "copy", "as_query", "match", "path",
        "misc", "unfold", "same_string_other_type", "rebuild", "children", "derived_mutate", "set_ops", "get_with_none"]
 
 
@@ -168,6 +168,16 @@ def run_sequence(rec, reg, model, vocab, Sid, rng, s, ops):
                 derived.append(y / rng.choice(["*", "x", "v001", "w", "ma"]))
             elif op == "copy":
                 derived.append(y.copy())
+            elif op == "fields_source_mutate":
+                d = y.fields          # ordered like the template
+                if d:
+                    z = Sid(fields=d)
+                    reg.register(z)
+                    rec.count("mutation_attempts")
+                    for k in list(d):
+                        d[k] = "MUTATED-SOURCE"
+                    d.clear()
+                    derived.append(z)
             elif op == "copy_module":
                 import copy
                 import pickle
